@@ -6,7 +6,8 @@ Transcription of the RSLang evaluator:
 * `ccl/rslang/src/NameCollector.cpp`   — first pass: one data slot per *name* (`idsBase`, `idsData`),
   per-node variable lists (`nodeVars`);
 * `ccl/rslang/src/ASTInterpreter.cpp`  — every `Vi*`, `ImpEvaluator` (the block machine of
-  `I{…}`), iteration counting against `MAX_ITERATIONS`, the boolean-limit rule;
+  `I{…}`), iteration counting against `MAX_ITERATIONS`, the boolean-limit rule, `SlotGuard` (every
+  binder puts the previous value of its variable's slot back when it finishes);
 * `ccl/rslang/src/Interpreter.cpp`     — `Evaluate` = normalise, collect names, evaluate.
 
 Unchecked accesses of the C++ are explicit outcomes: `stuck site` (`*begin()` of an empty vector,
@@ -368,6 +369,28 @@ def R.asBool : R V → R Bool
   | .ok (.bool b) st => .ok b st
   | .ok (.val _) st => .fail (.stuck "get<bool>") st.iters
 
+/-- `~SlotGuard`: the slot gets back the value it had when the binder started (on a failed visit the
+state is not observable any more) -/
+def restoreSlot (var : Nat) (saved : Val) : R V → R V
+  | .ok v st => .ok v { st with data := st.data.set var saved }
+  | .fail f k => .fail f k
+
+/-- the guards of `ImpEvaluator::outerValues` (one per ITERATE / ASSIGN block): slot and saved value;
+`none` = `slots.at(slot)` throws -/
+def impGuards (data : List Val) : List BlockMeta → Option (List (Nat × Val))
+  | [] => some []
+  | m :: ms =>
+    if m.rootID == .ITERATE || m.rootID == .ASSIGN then
+      match data[m.arg]? with
+      | none => none
+      | some v => (impGuards data ms).map ((m.arg, v) :: ·)
+    else impGuards data ms
+
+/-- the destructors of the guards -/
+def restoreSlots (saved : List (Nat × Val)) : R V → R V
+  | .ok v st => .ok v { st with data := saved.foldl (fun d (p : Nat × Val) => d.set p.1 p.2) st.data }
+  | .fail f k => .fail f k
+
 def allSome {α} : List (Option α) → Option (List α)
   | [] => some []
   | none :: _ => none
@@ -435,7 +458,10 @@ def ev (c : Ctx) : Nat → Ast → Option Tok → St → R V
       | .ok dom st1 =>
         match a.kids.head?.bind (firstVar c) with
         | none => .fail (.stuck "ViQuantifier *begin(nodeVars)") st1.iters
-        | some var => quantLoop (child 2) var (t == .FORALL) pos dom st1
+        | some var =>
+          match st1.data[var]? with   -- `SlotGuard guard{ idsData, varID }`
+          | none => .fail (.stuck "SlotGuard slots.at") st1.iters
+          | some saved => restoreSlot var saved (quantLoop (child 2) var (t == .FORALL) pos dom st1)
     | .NOT =>
       match childBool 0 st with
       | .fail f k => .fail f k
@@ -488,7 +514,10 @@ def ev (c : Ctx) : Nat → Ast → Option Tok → St → R V
       | .ok dom st1 =>
         match a.kids.head?.bind (firstVar c) with
         | none => .fail (.stuck "ViDeclarative *begin(nodeVars)") st1.iters
-        | some var => declLoop (child 2) var pos dom [] st1
+        | some var =>
+          match st1.data[var]? with
+          | none => .fail (.stuck "SlotGuard slots.at") st1.iters
+          | some saved => restoreSlot var saved (declLoop (child 2) var pos dom [] st1)
     | .NT_IMPERATIVE_EXPR =>
       -- `CreateBlockMetadata`
       let blocks := a.kids.drop 1
@@ -507,7 +536,9 @@ def ev (c : Ctx) : Nat → Ast → Option Tok → St → R V
             match blk.kids[1]? with
             | none => .fail (.stuck "ExtractDomain VisitChild(1)") st.iters
             | some d => ev c fuel d (some blk.id) st
-        impLoop nK metas child domKid pos (MAX_ITERATIONS + 2) 0 [] [] st
+        match impGuards st.data metas with   -- the guards are created with the metadata, before any block runs
+        | none => .fail (.stuck "SlotGuard slots.at") st.iters
+        | some saved => restoreSlots saved (impLoop nK metas child domKid pos (MAX_ITERATIONS + 2) 0 [] [] st)
     | .NT_RECURSIVE_FULL | .NT_RECURSIVE_SHORT =>
       match childVal 1 st with
       | .fail f k => .fail f k
@@ -515,8 +546,12 @@ def ev (c : Ctx) : Nat → Ast → Option Tok → St → R V
         match a.kids.head?.bind (firstVar c) with
         | none => .fail (.stuck "ViRecursion *begin(nodeVars)") st1.iters
         | some var =>
-          if t == .NT_RECURSIVE_FULL then recLoop (some (child 2)) (child 3) var pos (MAX_ITERATIONS + 2) init st1
-          else recLoop none (child 2) var pos (MAX_ITERATIONS + 2) init st1
+          match st1.data[var]? with
+          | none => .fail (.stuck "SlotGuard slots.at") st1.iters
+          | some saved =>
+            restoreSlot var saved
+              (if t == .NT_RECURSIVE_FULL then recLoop (some (child 2)) (child 3) var pos (MAX_ITERATIONS + 2) init st1
+               else recLoop none (child 2) var pos (MAX_ITERATIONS + 2) init st1)
     | .DECART =>
       match allVals nK st with
       | .fail f k => .fail f k
